@@ -11,12 +11,16 @@ ATTR = {"c": "child", "k": "kids", "b": "byname", "s": "group"}
 ATTR_ALT = {"c": "sub_items_node", "k": "kid_items", "b": "line_items", "s": "set_items_grp"}
 FINAL = {"v": "value", "x": "aux"}
 # final 'm': the metadata name `+tag` (every trait with metadata `tag`: `value` only) in both APIs
-FINAL_NAME = {"v": "value", "x": "aux", "m": "+tag"}
+# 'q': the optional name `value?` (the observe text syntax has no optional marker: its side registers plain `value`); 'p': the prefix wildcard `val+` (every non-event trait whose name starts
+# with `val`: `value` only) - observe has no prefix syntax, its side registers plain `value` and both are judged by
+# the reachability oracle
+FINAL_NAME = {"v": "value", "x": "aux", "m": "+tag", "q": "value?", "p": "val+"}
+FINAL_NAME_OBS = {"v": "value", "x": "aux", "m": "+tag", "q": "value", "p": "value"}
 
 
 def final_matches(final, t):
     """Does a change of scalar t ('v' / 'x') fall under the final part of the name?"""
-    return t == ("v" if final == "m" else final)
+    return t == ("v" if final in "mqp" else final)
 KNOWN_ITEMS_SIG = "intermediate-items-unreported:first-link-src-handler"
 
 
@@ -114,7 +118,7 @@ def observe_expr(links, final, A=ATTR):
         c = "." if notify else ":"
         parts = [A[x] + (c + "items" if x in "kbs" else "") for x in a]
         out += (parts[0] if len(a) == 1 else "[" + ",".join(parts) + "]") + c
-    return out + FINAL_NAME[final]
+    return out + FINAL_NAME_OBS[final]
 
 
 def parse_ops(s):
@@ -375,6 +379,10 @@ def random_name(rng):
         links[k] = ("".join(rng.sample("ckbs", rng.choice([2, 2, 3]))), links[k][1])
     elif r < 0.14:
         final = "m"      # `+tag`: the wildcard / metadata branch of ListenerItem.register
+    elif r < 0.17:
+        final = "q"      # `value?`
+    elif r < 0.20:
+        final = "p"      # `val+`: prefix wildcard
     arity = rng.choice([4, 4, 4, 4, 4, 4, 3, 3, 0, 0, 0, 1, 2])
     if arity in (1, 2):
         # DST signatures: only with ':' links (no intermediate notification, so handle_dst /
@@ -419,7 +427,7 @@ def dst_case(rng):
 
 
 def show_name(arity, links, final, mode="I"):
-    return ("#" if (arity in (1, 2) or final == "m" or any(len(a) > 1 for a, _ in links)) else "") + "".join(f + " " for f in mode if f in "EDKFZN") + " ".join([str(arity)] + [a + ("." if n else ":") for a, n in links] + [final])
+    return ("#" if (arity in (1, 2) or final in "mqp" or any(len(a) > 1 for a, _ in links)) else "") + "".join(f + " " for f in mode if f in "EDKFZN") + " ".join([str(arity)] + [a + ("." if n else ":") for a, n in links] + [final])
 
 
 def show_ops(ops):
@@ -1012,7 +1020,7 @@ def _run(arity, links, final, ops, mode=""):
     tags.add("registration:" + ("decorator" if w.pre_registered else "deferred-method" if "D" in mode else
                                 "deferred-kwarg" if "K" in mode else "plain"))
     tags.add("links%d" % n)
-    tags.add("name:" + ("group" if any(len(a) > 1 for a, _ in links) else "plain") + ("+metadata" if final == "m" else ""))
+    tags.add("name:" + ("group" if any(len(a) > 1 for a, _ in links) else "plain") + ({"m": "+metadata", "q": "+optional", "p": "+prefix"}.get(final, "")))
     ever_registered = False
     dst_dot = arity in (1, 2) and links[0][1]
     if dst_dot and (len(links) != 1 or links[0][0] != "c"):
